@@ -729,7 +729,24 @@ func init() {
 		return ""
 	}
 	I[ginp+"GetRawData"] = func(m *Machine, fr *frame, args []Value) Value {
+		// a request body set by the harness (vx.HTTPSetBody) travels as the
+		// same opaque "json" blob that the json.Marshal stub produces
+		if b, ok := m.gin(args[0].(*Value)).params["reqbody"].(Iface); ok {
+			o := &Opaque{Kind: "json", Data: Iface{T: b.T, V: deepCopy(b.V, map[interface{}]Value{})}}
+			return Tuple{Slice{A: &Cells{E: []Value{o}}, Len: 1, Cap: 1}, Iface{}}
+		}
 		return Tuple{Slice{A: &Cells{}, Len: 0, Cap: 0}, Iface{}}
+	}
+	// openapi.Deserialize(v, body, contentType): JSON decoding of a body that
+	// came from vx.HTTPSetBody (deep copy, as json.Unmarshal of a Marshal blob)
+	I["github.com/free5gc/openapi.Deserialize"] = func(m *Machine, fr *frame, args []Value) Value {
+		s, ok := args[1].(Slice)
+		if ok && s.Len == 1 {
+			if o, isO := (*s.at(0)).(*Opaque); isO && o.Kind == "json" {
+				return I["encoding/json.Unmarshal"](m, fr, []Value{args[1], args[0]})
+			}
+		}
+		return m.newError("openapi.Deserialize: body is not a JSON document set by the harness")
 	}
 
 	// ---- notification client ----
